@@ -1541,3 +1541,155 @@ func c01R12(c *Ctx, r *Report) {
 	r.Check(flushed, rule, emitFn.Name(), "deferred slots are written into the function", c.pos(emitFn.Decl.Pos()),
 		"slots deferred to the entry block are never emitted: their uses refer to undefined temporaries")
 }
+
+// ---- C17.R11: no unchecked unwrap of a map lookup -------------------------------------------------------------
+
+func init() {
+	lateInits = append(lateInits, func() {
+		props["C17"].Quick = append(props["C17"].Quick, c17R11)
+		props["C17"].Explanation += " (R11) MIR lowering never unwraps the optional produced by a map look-up without a default (OptionalUnwrap{HasDefault:false} on a MapGet result): an absent key must be refused, not read as uninitialised bytes."
+	})
+}
+
+func c17R11(c *Ctx, r *Report) {
+	const rule = "C17.R11"
+	r.Describe(rule, "mir/gen: in no function is the Result of a mir.MapGet literal the Value of a mir.OptionalUnwrap literal with HasDefault false")
+	n := 0
+	for _, fn := range c.AllFns(pkgMIRGen) {
+		info := fn.Info()
+		field := func(cl *ast.CompositeLit, name string) ast.Expr {
+			for _, e := range cl.Elts {
+				if kv, ok := e.(*ast.KeyValueExpr); ok && exprStr(kv.Key) == name {
+					return kv.Value
+				}
+			}
+			return nil
+		}
+		gets := map[types.Object]*ast.CompositeLit{}
+		ast.Inspect(fn.Decl.Body, func(x ast.Node) bool {
+			if cl, ok := x.(*ast.CompositeLit); ok {
+				if nt := namedOf(info.TypeOf(cl)); nt != nil && nt.Obj().Name() == "MapGet" {
+					n++
+					if res := field(cl, "Result"); res != nil {
+						if o := objOf(info, res); o != nil {
+							gets[o] = cl
+						}
+					}
+				}
+			}
+			return true
+		})
+		ast.Inspect(fn.Decl.Body, func(x ast.Node) bool {
+			cl, ok := x.(*ast.CompositeLit)
+			if !ok {
+				return true
+			}
+			if nt := namedOf(info.TypeOf(cl)); nt == nil || nt.Obj().Name() != "OptionalUnwrap" {
+				return true
+			}
+			val, hd := field(cl, "Value"), field(cl, "HasDefault")
+			if val == nil {
+				return true
+			}
+			o := objOf(info, val)
+			if o == nil || gets[o] == nil {
+				return true
+			}
+			unchecked := hd == nil
+			if hd != nil {
+				if v := constOf(info, hd); v != nil && v.Kind() == constant.Bool && !constant.BoolVal(v) {
+					unchecked = true
+				}
+			}
+			r.Check(!unchecked, rule, fn.Name(), "map look-up "+exprStr(val)+" is not unwrapped without a default", c.pos(cl.Pos()),
+				"the optional result of a map look-up is unwrapped without a default and without testing the flag: for an absent key the payload bytes are uninitialised, so `m[k] += v` inserts a garbage value instead of stopping with `key not found`")
+			return true
+		})
+	}
+	r.Floor(rule, n, 2, "mir.MapGet constructions")
+}
+
+// ---- C17.R12: a map look-up that is treated as an optional is typed as one -------------------------------------
+
+func init() {
+	lateInits = append(lateInits, func() {
+		props["C17"].Quick = append(props["C17"].Quick, c17R12)
+		props["C17"].Explanation += " (R12) where HIR lowering treats a map look-up as an optional producer (no OptionalSome wrapper, operand of ??) it also gives the look-up the optional type, so MIR selects the optional-returning runtime read instead of storing a bare value into an optional."
+	})
+}
+
+func c17R12(c *Ctx, r *Report) {
+	const rule = "C17.R12"
+	r.Describe(rule, "hir/lower: wrapOptional returns an optional producer only through mapIndexAsOptional; lowerCoalescingExpr consults mapIndexAsOptional for its condition; mapIndexAsOptional builds the IndexExpr with types.NewOptional(e.Type)")
+	const pkgLower = "internal/hir/lower"
+	wrap := c.LookupFn(pkgLower, "(*Lowerer).wrapOptional")
+	prod := c.LookupFn(pkgLower, "(*Lowerer).isOptionalProducer")
+	coal := c.LookupFn(pkgLower, "(*Lowerer).lowerCoalescingExpr")
+	if !r.Anchor(rule, wrap != nil && prod != nil && coal != nil, "hir/lower wrapOptional / isOptionalProducer / lowerCoalescingExpr") {
+		return
+	}
+	asOpt := c.LookupFn(pkgLower, "(*Lowerer).mapIndexAsOptional")
+	// isOptionalProducer still counts map look-ups as producers? (if not, the wrapper is added and nothing is needed)
+	pinfo := prod.Info()
+	mapProducer := false
+	ast.Inspect(prod.Decl.Body, func(x ast.Node) bool {
+		if cc, ok := x.(*ast.CaseClause); ok {
+			for _, t := range caseTypes(pinfo, cc) {
+				if nt := namedOf(t); nt != nil && nt.Obj().Name() == "IndexExpr" {
+					ast.Inspect(cc, func(y ast.Node) bool {
+						if ta, ok := y.(*ast.TypeAssertExpr); ok && ta.Type != nil && strings.HasSuffix(exprStr(ta.Type), "MapType") {
+							mapProducer = true
+						}
+						return true
+					})
+				}
+			}
+		}
+		return true
+	})
+	if !mapProducer {
+		r.OK(rule, prod.Name(), "map look-ups are not optional producers (they get an OptionalSome wrapper)", c.pos(prod.Decl.Pos()), "nothing to retag")
+		return
+	}
+	winfo := wrap.Info()
+	okWrap := false
+	ast.Inspect(wrap.Decl.Body, func(x ast.Node) bool {
+		ifs, ok := x.(*ast.IfStmt)
+		if !ok || nodeCalls(winfo, ifs.Cond, prod.Obj) == nil {
+			return true
+		}
+		for _, st := range ifs.Body.List {
+			if ret, ok := st.(*ast.ReturnStmt); ok && len(ret.Results) == 1 {
+				if cl, ok := ast.Unparen(ret.Results[0]).(*ast.CallExpr); ok && asOpt != nil && isCallTo(winfo, cl, asOpt.Obj) {
+					okWrap = true
+				}
+			}
+		}
+		return true
+	})
+	r.Check(okWrap, rule, wrap.Name(), "an optional producer is returned through mapIndexAsOptional", c.pos(wrap.Decl.Pos()),
+		"`let o: i32? = m[\"a\"]` keeps the look-up typed i32: MIR emits the panicking read and stores the bare value into the optional without setting its flag — o ?? -1 yields -1 for a present key and an absent key stops the program instead of giving none")
+	r.Check(asOpt != nil && nodeCallsDeep(coal.Info(), coal.Decl.Body, asOpt.Obj), rule, coal.Name(), "`m[k] ?? d` treats the look-up as an optional", c.pos(coal.Decl.Pos()),
+		"the condition of ?? is a map look-up typed with the bare value type: the native back end rejects the program ('unsupported optional_unwrap')")
+	if asOpt != nil {
+		ainfo := asOpt.Info()
+		builds := false
+		ast.Inspect(asOpt.Decl.Body, func(x ast.Node) bool {
+			if cl, ok := x.(*ast.CompositeLit); ok {
+				if nt := namedOf(ainfo.TypeOf(cl)); nt != nil && nt.Obj().Name() == "IndexExpr" {
+					for _, e := range cl.Elts {
+						if kv, ok := e.(*ast.KeyValueExpr); ok && exprStr(kv.Key) == "Type" {
+							if tc, ok := ast.Unparen(kv.Value).(*ast.CallExpr); ok {
+								if f := callee(ainfo, tc); f != nil && f.Name() == "NewOptional" {
+									builds = true
+								}
+							}
+						}
+					}
+				}
+			}
+			return true
+		})
+		r.Check(builds, rule, asOpt.Name(), "retypes the look-up with types.NewOptional", c.pos(asOpt.Decl.Pos()), "the look-up keeps its value type")
+	}
+}
